@@ -20,6 +20,7 @@ pkgdir=$(grep -m1 -o 'PKGDIR:.*' "$src/notes.md" 2>/dev/null | cut -d: -f2 | tr 
 pkgname=$(grep -m1 '^package ' "$demo" | awk '{print $2}')
 cands=$( (grep '^+++ b/' "$src/patch.diff" | sed 's#^+++ b/##' | xargs -n1 dirname; grep -o '[a-zA-Z0-9_/.-]*zz_seed[a-zA-Z0-9_]*_test.go' "$src/notes.md" | xargs -n1 dirname 2>/dev/null) | sort -u)
 place=""
+if [ -n "$pkgdir" ] && [ -d "$wt/$pkgdir" ]; then cands="$pkgdir"; fi
 for d in $cands . ; do
   d=${d#/tmp/seed/*/}; [ -d "$wt/$d" ] || continue
   p=$(cd "$wt/$d" && ls *.go 2>/dev/null | head -1); [ -n "$p" ] || continue
